@@ -5,7 +5,8 @@ NAME="$1"; shift
 W=$(mktemp -d /dev/shm/refac.XXXXXX); trap 'rm -rf "$W"' EXIT
 mkdir -p "$W/m"; (cd /repo && git ls-files -z | xargs -0 cp --parents -t "$W/m")
 for P in "$@"; do (cd "$W/m" && patch -p1 -s < "$P") || { echo "REFAC $NAME: PATCH-FAILED $P"; exit 2; }; done
-SUITE=$(cd "$W/m" && PYTHONPATH="$W/m" PYTHONDONTWRITEBYTECODE=1 /venv/bin/python -m pytest -q -p no:cacheprovider -n 8 2>&1 | tail -1)
+mkdir -p "$W/tmp"   # the suite and demos leave mkdtemp directories behind: keep them in the scratch copy
+SUITE=$(cd "$W/m" && TMPDIR="$W/tmp" PYTHONPATH="$W/m" PYTHONDONTWRITEBYTECODE=1 /venv/bin/python -m pytest -q -p no:cacheprovider -n 8 2>&1 | tail -1)
 echo "REFAC $NAME: suite=[$SUITE]"
 for id in ${CHECKS:-C01 C02 C03 C04 C05 C06 C07 C08 C09 C10 C11 C12 C13 C14 C15 C16 C17 C18 C19 C20}; do
   OUT=$(DARR_SRC="$W/m" VERIF_EVIDENCE_DIR="$W/ev" ./check $id --tier quick 2>&1); RC=$?
